@@ -547,6 +547,9 @@ class Ctx:
                 problems.append("theorem %s depends on non-allow-listed axioms %s" % (name, notok))
             elif name in theorems:
                 self.cov["discharged"] += 1
+        if (not self.quick) and props_path is None and not problems and os.environ.get("VERIF_COQCHK", "1") != "0":
+            self.run_coqchk(props_name)
+            problems = problems + getattr(self, "_coqchk_problems", [])
         for a in sorted(tb):
             s = "stdlib axiom/primitive used: " + a
             if s not in self.cov["trusted_base"]:
@@ -555,6 +558,42 @@ class Ctx:
         return not problems
 
     _proof_problems: list[str] = []
+
+    def run_coqchk(self, props_name: str):
+        """thorough tier: re-check the compiled closure with the independent checker coqchk and
+        record the axioms it lists (every axiom of every loaded library file, so a superset of
+        Print Assumptions); guard/positivity/type-in-type sections must be empty"""
+        rc, out = sh(["timeout", "1500", "coqchk", "-o", "-silent"] + COQ_FLAGS + ["QV.props." + props_name],
+                     cwd=COQ, timeout=1530)
+        (self.dir / (props_name + ".coqchk")).write_text(out)
+        self._coqchk_problems = []
+        if rc != 0:
+            self._coqchk_problems.append("coqchk failed (rc=%d): %s" % (rc, out[-600:]))
+            return
+        secs = {}
+        cur = None
+        for line in out.splitlines():
+            m = re.match(r"\* (.*?):\s*(<none>)?\s*$", line.strip())
+            if m:
+                cur = m.group(1)
+                secs[cur] = []
+                continue
+            if cur and line.strip():
+                secs[cur].append(line.strip())
+        ours = [a for a in secs.get("Axioms", []) if a.startswith("QV.")]
+        for k, v in secs.items():
+            if k != "Axioms" and v:
+                self._coqchk_problems.append("coqchk: %s: %s" % (k, v[:5]))
+        if ours:
+            self._coqchk_problems.append("coqchk: axioms declared in our development: %s" % ours[:5])
+        self.cov["coqchk"] = {
+            "cmd": "coqchk -o -silent -Q /verif/coq QV QV.props." + props_name,
+            "ok": not self._coqchk_problems,
+            "axioms_listed_in_loaded_libraries": len(secs.get("Axioms", [])),
+            "axioms_outside_primitive_int_float": sorted(
+                a for a in secs.get("Axioms", [])
+                if not re.match(r"Coq\.(Numbers\.Cyclic\.Int63|Floats)\.", a))[:40],
+        }
 
     def proofs_or_violation(self, *a, **kw) -> bool:
         """require_proofs + report a broken obligation as a violation (no failing input known
